@@ -110,25 +110,35 @@ func checkRAs(a, b *ndp.RouterAdvertisement) problems {
 		ps.push("other_configuration", "", a.OtherConfiguration, b.OtherConfiguration)
 	}
 
-	if !checkDurations(a.ReachableTime, b.ReachableTime) {
+	if !checkDurations(a.ReachableTime, b.ReachableTime, time.Millisecond) {
 		ps.push("reachable_time", "", a.ReachableTime, b.ReachableTime)
 	}
 
-	if !checkDurations(a.RetransmitTimer, b.RetransmitTimer) {
+	if !checkDurations(a.RetransmitTimer, b.RetransmitTimer, time.Millisecond) {
 		ps.push("retransmit_timer", "", a.RetransmitTimer, b.RetransmitTimer)
 	}
 
 	return ps
 }
 
-// checkDurations reports whether two time.Duration values are consistent.
-func checkDurations(want, got time.Duration) bool {
+// checkDurations reports whether two time.Duration values are consistent when
+// carried in a router advertisement field with the specified unit.
+func checkDurations(want, got, unit time.Duration) bool {
+	// A router advertisement carries durations as a whole number of units, so
+	// compare what is actually sent and received.
+	want, got = want.Truncate(unit), got.Truncate(unit)
 	if want == 0 || got == 0 {
 		// If either duration is unspecified, nothing to do.
 		return true
 	}
 
 	return want == got
+}
+
+// equalLifetimes reports whether two lifetimes are equal when carried in a
+// router advertisement, which has a precision of one second.
+func equalLifetimes(a, b time.Duration) bool {
+	return a.Truncate(time.Second) == b.Truncate(time.Second)
 }
 
 // checkMTUs reports whether two NDP MTU option values are consistent, or
@@ -176,10 +186,10 @@ func checkPrefixes(want, got []ndp.Option) problems {
 			//
 			// TODO: deal with decrementing lifetimes? CoreRAD doesn't support
 			// them at the moment so we can't verify them either.
-			if a.PreferredLifetime != b.PreferredLifetime {
+			if !equalLifetimes(a.PreferredLifetime, b.PreferredLifetime) {
 				ps.push("prefix_information_preferred_lifetime", prefixStr(a), a.PreferredLifetime, b.PreferredLifetime)
 			}
-			if a.ValidLifetime != b.ValidLifetime {
+			if !equalLifetimes(a.ValidLifetime, b.ValidLifetime) {
 				ps.push("prefix_information_valid_lifetime", prefixStr(a), a.ValidLifetime, b.ValidLifetime)
 			}
 		}
@@ -218,7 +228,7 @@ func checkRoutes(want, got []ndp.Option) problems {
 			//
 			// TODO: deal with decrementing lifetimes? CoreRAD doesn't support
 			// them at the moment so we can't verify them either.
-			if a.Preference == b.Preference && a.RouteLifetime != b.RouteLifetime {
+			if a.Preference == b.Preference && !equalLifetimes(a.RouteLifetime, b.RouteLifetime) {
 				ps.push("route_information_lifetime", routeStr(a), a.RouteLifetime, b.RouteLifetime)
 			}
 		}
@@ -249,7 +259,7 @@ func checkRDNSS(want, got []ndp.Option) problems {
 
 	// Assuming both are advertising RDNSS, the options must be identical.
 	for i := range dnsA {
-		if a, b := dnsA[i].Lifetime, dnsB[i].Lifetime; a != b {
+		if a, b := dnsA[i].Lifetime, dnsB[i].Lifetime; !equalLifetimes(a, b) {
 			ps.push("rdnss_lifetime", "", a, b)
 		}
 
@@ -300,7 +310,7 @@ func checkDNSSL(want, got []ndp.Option) problems {
 
 	// Assuming both are advertising DNSSL, the options must be identical.
 	for i := range dnsA {
-		if a, b := dnsA[i].Lifetime, dnsB[i].Lifetime; a != b {
+		if a, b := dnsA[i].Lifetime, dnsB[i].Lifetime; !equalLifetimes(a, b) {
 			ps.push("dnssl_lifetime", "", a, b)
 		}
 
